@@ -168,7 +168,7 @@ class RegisterData:
             self.remove(filtered_registers)
         elif isinstance(filtered_registers, list):
             for r in filtered_registers:
-                if isinstance(r, Register) and r != self.__root:
+                if isinstance(r, Register) and r is not self.__root:
                     self.remove(r)
 
     @property
